@@ -148,6 +148,47 @@ def event_world(seed, twins=True):
                 w.make_read(chrom, [e0, e1, e2, e3, rm], truth={"src": gid + ".t1", "class": "misplaced-terminal-exon-right"})
                 w.make_read(chrom, [lm, e1, e2, e3, rm], truth={"src": gid + ".t1", "class": "misplaced-terminal-exon-both"})
             pos = pos + 8100 + rng.randint(2500, 3500)
+    # a gene whose two isoforms have OVERLAPPING introns (alternative donor in one, alternative acceptor in the other: 401..906 and 901..1400
+    # relative to the locus) and reads with a spurious 6-bp exon between two introns, each within the tolerance of one of them; an insertion
+    # (or three mismatching bases) inside the tiny exon makes both sites move
+    from vlib.world import Read
+    for ci, chrom in enumerate(w.chrom_order):
+        p0 = max([g.end for g in w.genes if g.chrom == chrom] + [1000]) + 2500
+        if p0 + 4000 > w.chrom_len(chrom):
+            continue
+        strand = "+-"[ci % 2]
+        gid = "TINY%d" % (ci + 1)
+        t1 = [(p0, p0 + 400), (p0 + 907, p0 + 1900)]
+        t2 = [(p0, p0 + 900), (p0 + 1401, p0 + 1900)]
+        g = Gene(gid, chrom, strand)
+        g.transcripts.append(Transcript(gid + ".t1", gid, chrom, strand, t1, True, "overlapping-introns"))
+        g.transcripts.append(Transcript(gid + ".t2", gid, chrom, strand, t2, True, "overlapping-introns"))
+        for t in g.transcripts:
+            for intr in t.introns:
+                w.plant_sites(chrom, intr, strand)
+        w.genes.append(g)
+        for t in g.transcripts:
+            for _ in range(3):
+                w.make_read(chrom, list(t.exons), truth={"src": t.id, "class": "exact"})
+        seq = w.chroms[chrom]
+        for k in range(3):
+            # blocks: p0+10k..p0+400 | p0+901..p0+906 | p0+1401..p0+1900-10k
+            b1 = (p0 + 10 * k, p0 + 400)
+            b2 = (p0 + 901, p0 + 906)
+            b3 = (p0 + 1401, p0 + 1900 - 10 * k)
+            s1 = "".join(seq[b1[0] - 1:b1[1]])
+            s2 = "".join(seq[b2[0] - 1:b2[1]])
+            s3 = "".join(seq[b3[0] - 1:b3[1]])
+            if k < 2:
+                cigar = [(0, len(s1)), (3, b2[0] - b1[1] - 1), (0, 3), (1, 1), (0, 3), (3, b3[0] - b2[1] - 1), (0, len(s3))]
+                rseq = s1 + s2[:3] + "G" + s2[3:] + s3
+                cls = "tiny-exon-between-overlapping-introns:insertion"
+            else:
+                flip = {"A": "C", "C": "A", "G": "T", "T": "G"}
+                cigar = [(0, len(s1)), (3, b2[0] - b1[1] - 1), (0, 6), (3, b3[0] - b2[1] - 1), (0, len(s3))]
+                rseq = s1 + "".join(flip.get(c_.upper(), "A") if i_ in (1, 3, 4) else c_ for i_, c_ in enumerate(s2)) + s3
+                cls = "tiny-exon-between-overlapping-introns:mismatches"
+            w.reads.append(Read(w.new_read_name("tiny"), chrom, b1[0] - 1, cigar, rseq, flag=0, mapq=60, tags=[], truth={"src": gid, "class": cls}))
     # twin introns 2-6 bp apart at one boundary (never the first intron of the gene): a read junction between them is within
     # the tolerance of BOTH annotated introns
     if twins:
